@@ -385,6 +385,19 @@ def run_property(prop, tier, seed):
     notes = {}
     kf = known_findings()
     obligations, violations, undecided, results = decide_verus(prop, tier, seed, notes)
+    # assumptions that are backed by a source scan (exit 2 when the scanned-for construct appears)
+    for pat, why in P.get("forbid_in_src", []):
+        hits = []
+        for root, _, files in os.walk(os.path.join(REPO, "src")):
+            for fn in files:
+                if fn.endswith(".rs"):
+                    txt = open(os.path.join(root, fn), errors="replace").read().split("#[cfg(test)]")[0]
+                    for ln, line in enumerate(txt.split("\n"), 1):
+                        if re.search(pat, line) and not line.strip().startswith("//"):
+                            hits.append(f"{os.path.relpath(os.path.join(root, fn), REPO)}:{ln}")
+        notes.setdefault("src_scan", []).append({"pattern": pat, "hits": len(hits)})
+        if hits:
+            undecided.append(f"assumption no longer backed by the source scan ({why}): /{pat}/ at {hits[:5]}")
     # Kani harnesses (bit-precise obligations, bounded stand-ins, witnesses)
     k_obl, k_viol, k_und, k_info = kani_run.decide(prop, tier, seed, scratch(), REPO, need_witness_for=violations)
     obligations += k_obl
@@ -458,6 +471,7 @@ def run_property(prop, tier, seed):
             "solver_ms": sum(r.get("solver_ms", 0) for r in results.values()) + k_info.get("solver_ms", 0),
             "bounded_checks": bounded,
             "vacuity": notes.get("vacuity", {}),
+            "src_scan": notes.get("src_scan", []),
             "undecided": undecided[:20],
             "samples": samples or [{"note": "no obligations"}],
             "explanation": P.get("claim", ""),
